@@ -337,7 +337,7 @@ class Minor(object):
         elif abs(e - 1.0) < self._tol:
             # Parabolic case
             q = self._q
-            ww = (0.03649116245 * (epoch - self._t)) / (q * sqrt(q))
+            ww = (0.03649116245 * t_peri) / (q * sqrt(q))
             sp = ww / 3.0
             iterate = True
             while iterate:
@@ -359,6 +359,7 @@ class Minor(object):
         xi = x + xs
         eta = y + ys
         zeta = z + zs
+        delta = sqrt(xi * xi + eta * eta + zeta * zeta)
         ra = Angle(atan2(eta, xi), radians=True)
         dec = Angle(atan2(zeta, sqrt(xi * xi + eta * eta)), radians=True)
         r_sun = sqrt(xs * xs + ys * ys + zs * zs)
